@@ -145,8 +145,9 @@ class OpEq(Spec):
         local = z3.And(
             f["same_name"], f["same_attributes"], f["same_properties"], self.same_result_types(),
             s["a_operands"].n == s["b_operands"].n, s["a_succ"].n == s["b_succ"].n, z3.BoolVal(len(self.ra) == len(self.rb)),
-            # parents correspond when both ops are attached
-            z3.Implies(z3.And(pa != 0, pb != 0), z3.And(d0[pa], v0[pa] == pb)),
+            # the parent blocks correspond WHEN the parent is part of the compared IR (registered in the context by the enclosing block comparison); at the root of
+            # a comparison the parents lie outside the compared pieces and say nothing (an attached op is equivalent to itself)
+            z3.Implies(z3.And(pa != 0, pb != 0, d0[pa]), v0[pa] == pb),
             forall([i], z3.Implies(z3.And(i >= 0, i < s["a_operands"].n), corr(d0, v0, s["a_operands"].arr[i]) == s["b_operands"].arr[i])),
             forall([i], z3.Implies(z3.And(i >= 0, i < s["a_succ"].n), corr(d0, v0, s["a_succ"].arr[i]) == s["b_succ"].arr[i])),
         )
